@@ -596,7 +596,9 @@ def describe(tier, agg):
             'sub-line races are not explored',
             'the global parameter dictionary holds the packaged defaults and is not edited '
             'during C13 runs (editing it concurrently is documented as not thread-safe)',
-            'reference = the same job run alone in the same process under the same tracer',
+            'reference = the same job run alone, in its own fresh fork, under the same tracer '
+            '(with the shared-state fingerprint evaluated at every line: the dirty profile)',
+            'every simulated execution and every stage-level merge runs in its own fresh fork',
             'a scene whose isolated run raises something other than AmpycloudError is discarded',
         ],
         'extra': {
@@ -608,6 +610,14 @@ def describe(tier, agg):
                                    'one direction; thorough: 4 pairs, both directions)',
             'sweep_static_lines': sorted(agg['sets'].pop('sweep_static_lines', set())),
             'distinct_interleavings': len(agg['sets'].get('interleavings', ())),
+            'dirty_window_note': 'jobs_with_global_state_in_flight and '
+                                 'preemption_while_global_state_dirty are 0 on a tree that keeps '
+                                 'all working state on the chunk (the unchanged tree): the '
+                                 'window-edge enumeration and the parking of the directed '
+                                 'strategy only act on trees where a job, run alone, changes '
+                                 'process-global state',
+            'jobs_with_global_state_in_flight': agg['counters'].get(
+                'probe.jobs_with_global_state_in_flight', 0),
             'distinct_coresidence_pairs': len(agg['sets'].get('coresidence_pairs', ())),
             'scripted_clock_span_s': max(spans) if spans else 0,
             'simulated_time': 'logical steps (line events / stage calls); the package has no '
